@@ -51,9 +51,11 @@ Apply(S, e, fix) ==
       [] e.k = "xr" ->
             IF ~(Z(S, z).pc \in ExchPcs) THEN S
             ELSE IF e.s # "ok" THEN Fail(S, z, "err", fix)
-            ELSE IF Z(S, z).pc = "w_frag" THEN OnFrag(S, z, e.a, e.b, e.c, TRUE, fix)
-            ELSE IF Z(S, z).pc = "w_put" THEN OnPutAck(S, z)
-            ELSE OnVer(S, z, e.a)
+            \* e.q = the kind of exchange the code actually made; when it is not the one the shadow model is
+            \* waiting for, the shadow stays where it is (reported as drift by Fits, never a crash of the judge)
+            ELSE IF Z(S, z).pc = "w_frag" THEN (IF e.q = "frag" THEN OnFrag(S, z, e.a, e.b, e.c, TRUE, fix) ELSE S)
+            ELSE IF Z(S, z).pc = "w_put" THEN (IF e.q = "put" THEN OnPutAck(S, z) ELSE S)
+            ELSE (IF e.q = "ver" THEN OnVer(S, z, e.a) ELSE S)
       [] e.k = "locked" -> IF Z(S, z).pc = "w_lock" THEN TryLock(S, z) ELSE S
       [] e.k = "end" -> IF Active(S, z) THEN Fail(S, z, e.s, fix) ELSE S
       [] e.k = "hm" -> IF e.s = "ack" THEN HeardAck(S, z, e.b, e.c, TRUE, fix)
